@@ -3,7 +3,7 @@ import sys, os, json, re, subprocess, time, shutil, glob
 
 VERUS_TOOLCHAIN = "1.98.1-x86_64-unknown-linux-gnu"
 SPEC_FAIL_PATTERNS = [
-    "postcondition not satisfied", "precondition not satisfied", "assertion failed",
+    "postcondition not satisfied", "precondition not satisfied", "unable to prove", "post-condition", "pre-condition", "assertion failed",
     "invariant not satisfied", "possible arithmetic underflow/overflow", "possible division by zero",
     "decreases not satisfied", "could not prove termination", "unreachable", "index out of bounds",
     "possible bit shift underflow/overflow", "requirement not satisfied", "loop invariant",
@@ -64,18 +64,49 @@ class Run:
                 raise Undecided("cannot build vx:\n" + err[-2000:])
         return vx
 
-    def extract(self, templates, name="all"):
+    def ensure_extern(self):
+        """foreign crates (ordered-float, rand) built with Verus' pinned toolchain; linked with --extern"""
+        d = os.path.join(self.root, "extern")
+        deps = os.path.join(d, "target", "release", "deps")
+        def find(n):
+            g = sorted(glob.glob(os.path.join(deps, "lib%s-*.rlib" % n)))
+            return g[0] if g else None
+        if not find("ordered_float") or not find("rand"):
+            rc, so, se, _ = sh(["cargo", "build", "--offline", "--release"], cwd=d, env={"RUSTUP_TOOLCHAIN": VERUS_TOOLCHAIN})
+            if rc != 0:
+                raise Undecided("cannot build extern crates: " + se[-1500:])
+        return ["--extern", "ordered_float=" + find("ordered_float"), "--extern", "rand=" + find("rand"), "-L", "dependency=" + deps]
+
+    def expand(self, package="push"):
+        """macro expansion of the real crate (cargo +nightly rustc -Zunpretty=expanded): the source of the
+        #[push_state]-generated accessors/builder and the thiserror From impls"""
+        outdir = os.path.join(self.build, "expanded")
+        os.makedirs(outdir, exist_ok=True)
+        out = os.path.join(outdir, package + ".rs")
+        tdir = os.path.join(self.root, "build", "expand-target")
+        rc, so, se, t = sh(["cargo", "+nightly", "rustc", "--offline", "-p", package, "--lib", "--", "-Zunpretty=expanded"],
+                           cwd=self.repo, env={"CARGO_TARGET_DIR": tdir}, timeout=900)
+        if rc != 0 or "fn " not in so:
+            raise Undecided("macro expansion of %s failed (the tree does not compile?):\n%s" % (package, se[-2000:]))
+        open(out, "w").write(so)
+        self.notes.append("expanded %s in %.1fs" % (package, t))
+        return outdir
+
+    def extract(self, templates, name="all", expanded=None):
         vx = self.ensure_vx()
         out = os.path.join(self.build, name + ".rs")
         rec = os.path.join(self.build, name + ".extraction.json")
         tpls = [os.path.join(self.root, "specs", t) for t in templates]
-        rc, so, se, _ = sh([vx, "--repo", self.repo, "-o", out, "--record", rec] + tpls)
+        cmd = [vx, "--repo", self.repo, "-o", out, "--record", rec]
+        if expanded:
+            cmd += ["--expanded", expanded]
+        rc, so, se, _ = sh(cmd + tpls)
         if rc != 0:
             raise Undecided("extraction: " + se.strip())
         self.extraction = json.load(open(rec))
         for r in self.extraction:
             if r["kind"] == "fn":
-                self.functions.append({"fn": "%s :: %s :: %s" % (r["file"], r["container"], r["fn"]),
+                self.functions.append({"fn": "%s :: %s :: %s" % (r["file"].replace("@expanded/", "<macro expansion of> "), r["container"], r["fn"]),
                                        "lines": r["lines"], "hash": r["hash"], "transforms": r["transforms"]})
         return out
 
@@ -85,21 +116,27 @@ class Run:
         ap = os.path.join(self.root, "specs", "ALLOW.txt")
         for l in open(ap):
             l = l.strip()
-            if l and not l.startswith("#"):
+            if l and not l.startswith("# "):
                 allow.add(re.sub(r"\s+", " ", l))
         found = []
         lines = open(path).read().split("\n")
-        for i, l in enumerate(lines):
-            if l.strip().startswith("//"):
+        i = 0
+        while i < len(lines):
+            l = lines[i]
+            if l.strip().startswith("//") or not ASSUME_RE.search(l):
+                i += 1
                 continue
-            if ASSUME_RE.search(l):
-                # the declaration line (+ next line if the marker is an attribute alone)
-                decl = l.strip()
-                if decl.startswith("#[") and i + 1 < len(lines):
-                    decl = decl + " " + lines[i + 1].strip()
-                decl = re.sub(r"\s+", " ", decl)
-                decl = re.sub(r"\s*[{;]\s*$", "", decl)
-                found.append(decl)
+            decl = l.strip()
+            # an attribute: gather the following attribute lines and the item line they decorate
+            while decl.rstrip().endswith("]") and lines[i].strip().startswith("#[") and i + 1 < len(lines):
+                i += 1
+                decl = decl + " " + lines[i].strip()
+                if not lines[i].strip().startswith("#["):
+                    break
+            decl = re.sub(r"\s+", " ", decl)
+            decl = re.sub(r"\s*[{;]\s*$", "", decl)
+            found.append(decl)
+            i += 1
         bad = [f for f in found if f not in allow]
         if bad:
             raise Undecided("assumption(s) not on the allow-list specs/ALLOW.txt (refusing to trust them):\n  "
@@ -183,7 +220,7 @@ class Run:
             # function props: use the *latest* line mentioned (body) to find the enclosing fn tag
             anchor = max([a for a, _ in allspans] + [line])
             props = labs or fn_props.get(anchor, [])
-            failures.append({"message": msg, "line": line, "labels": props, "label_name": lname,
+            failures.append({"message": msg, "line": line, "anchor": anchor, "labels": props, "label_name": lname,
                              "rendered": d.get("rendered", ""), "text": lines[line - 1].strip() if line else ""})
         if hard:
             raise Undecided("verus rejected the extracted text (not a verification failure):\n" + "\n".join(hard)[:3000])
@@ -280,27 +317,47 @@ class Run:
 
 
 def run_verus_property(run, cfg):
-    path = run.extract(cfg["templates"])
+    expanded = run.expand() if cfg.get("expand") else None
+    path = run.extract(cfg["templates"], expanded=expanded)
     run.scan_assumptions(path)
-    extra = []
+    extra = run.ensure_extern() if cfg.get("extern") else []
     failures = run.verus(path, extra=extra)
-    dep_fail = []
+    obs = []
     for f in failures:
-        ob = "%s@%s" % (f["label_name"] or f["message"].replace(" ", "-"), enclosing_fn(path, f["line"]))
+        fn = enclosing_fn(path, f["line"] if f["labels"] and f["label_name"] else f.get("anchor", f["line"]))
+        obs.append((fn, f))
+    # a function that has per-variant split copies is attributed through them
+    split_failed = {fn.split("::")[-1] for fn, _ in obs if "__" in fn.split("::")[-1]}
+    dep_fail = []
+    seen = set()
+    for fn, f in obs:
+        base = fn.split("::")[-1]
+        if "__" not in base and any(sf.startswith(base + "__") for sf in split_failed):
+            continue
+        if "closure" in f["message"]:
+            # the same closure text is re-checked inside every per-variant copy: one obligation
+            m = re.search(r"ensures\s+(.{0,90})", f["text"])
+            fn = re.sub(r"__.*$", "", fn)
+            # a closure computes an operand/result value: functional semantics = the primary property of the function
+            f["labels"] = f["labels"][:1]
+            ob = "closure-ensures[%s]@%s" % (re.sub(r"\s+", "", m.group(1) if m else f["text"][:90]), fn)
+        else:
+            ob = "%s@%s" % ((f["label_name"] or f["message"]).replace(" ", "-"), fn)
+        if ob in seen:
+            continue
+        seen.add(ob)
         if run.pid in f["labels"]:
             run.report_failure(ob, f["message"], f["rendered"])
         else:
             dep_fail.append((ob, f))
     if dep_fail and not run.violations:
-        return "obligation(s) outside this property's labels failed (belongs to %s): %s" % (
+        return "obligation(s) outside this property's labels failed (they belong to %s): %s" % (
             sorted({l for _, f in dep_fail for l in f["labels"]}), "; ".join(o for o, _ in dep_fail)[:800])
     if run.tier == "thorough" and not failures:
         # stability re-runs with different SMT seeds: a proof that only passes for one seed is brittle
         for s in (1, 2):
-            p2 = path
             n0 = len(run.obligations)
-            f2 = run.verus(p2, extra=["--smt-option", "smt.random_seed=%d" % (run.seed + s)], tag="verus.seed%d" % s)
-            # do not double count obligations
+            f2 = run.verus(path, extra=extra + ["--smt-option", "smt.random_seed=%d" % (run.seed + s)], tag="verus.seed%d" % s)
             del run.obligations[n0:]
             if f2:
                 return "proof unstable under smt.random_seed=%d: %s" % (run.seed + s, f2[0]["message"])
